@@ -525,6 +525,26 @@ def run(ctx):
             dis.append((d, res))
         if not samples and res.get("texts"):
             samples = [t for _, t in res["texts"][:3]]
+    # trees of two documents compared with each other: string constants are interned per document
+    words = ["alpha", "beta", "gamma", "delta", "f.json", "a b", "x", "alpha2"]
+    xlines = []
+    for _ in range(6 if not ctx.thorough else 60):
+        docs2 = []
+        for _d in range(2):
+            ws = r.sample(words, r.randint(2, 5))
+            decl = " ".join('const string s%d = "%s";' % (i, wd) for i, wd in enumerate(ws)) + " const int k0 = %d; const double d0 = 1.5;" % r.randint(0, 3)
+            docs2.append('<?xml version="1.0" encoding="utf-8"?><nta><declaration>%s</declaration><template><name>T</name>'
+                         '<location id="id0"><name>L</name></location><init ref="id0"/></template><system>system T;</system></nta>' % escape(decl))
+        xlines.append("XDOC %s %s" % (docs2[0].encode().hex(), docs2[1].encode().hex()))
+    rc, out, err, _ = core.run_exe(exe, [], stdin_text="\n".join(xlines) + "\n", timeout=300)
+    if rc != 0:
+        ctx.finding("impl:crash:cross-document", "the harness died (rc=%s) while comparing trees of two documents" % rc, {"stderr": err[-2000:], "ops": xlines[:2]})
+    stats["cross_document_pairs"] = 0
+    for l in out.split("\n"):
+        if l.startswith("FAIL "):
+            fails.append((l, {"xml": "(two documents, see the XDOC operation)", "texts": xlines[:3]}))
+        elif l.startswith("XDOC "):
+            stats["cross_document_pairs"] += int(re.search(r"pairs=(\d+)", l).group(1))
     for _ in range(10 if not ctx.thorough else 100):
         for kind, info in dot_type_session(ctx, exe, r, stats):
             if kind == "crash":
@@ -574,7 +594,7 @@ def run(ctx):
         "correspondence_ops": stats["corr_ops"], "equal_true_between_trees": stats["equal_true"],
         "trees": stats["trees"], "nodes": stats["nodes"], "distinct_nontrivial": stats["trees"],
         "theorem_hypotheses_checked_on_parsed_trees": stats.get("hypotheses_checked", 0),
-        "empty_subexpressions_in_parsed_trees": stats["empty_children"], "process_member_types_checked": stats["dot_types"],
+        "empty_subexpressions_in_parsed_trees": stats["empty_children"], "process_member_types_checked": stats["dot_types"], "cross_document_pairs": stats.get("cross_document_pairs", 0),
         "texts_accepted": stats["texts_accepted"], "texts_rejected": stats["texts_rejected"], "docs_rejected": stats["docs_rejected"],
         "distribution": {"kinds_hit": len(stats["kinds"]), "kinds": dict(sorted(stats["kinds"].items(), key=lambda kv: -kv[1])),
                          "law_checks": stats["laws"],
